@@ -38,6 +38,11 @@ func (t TraceQLRequestProcessor) Process(ctx *shared.PlannerContext) (chan []mod
 	go func() {
 		defer rows.Close()
 		defer close(res)
+		defer func() {
+			if err := recover(); err != nil {
+				logger.Error("ERROR[TRP#2]: ", err)
+			}
+		}()
 
 		for rows.Next() {
 			var (
@@ -55,6 +60,9 @@ func (t TraceQLRequestProcessor) Process(ctx *shared.PlannerContext) (chan []mod
 			if err != nil {
 				logger.Error("ERROR[TRP#1]: ", err)
 				return
+			}
+			if len(durationsNs) != len(spanIds) || len(timestampsNs) != len(spanIds) {
+				continue
 			}
 			for i := range durationsNs {
 				if durationsNs[i] == timestampsNs[i] {
